@@ -374,6 +374,22 @@ def check_circuit_side(ctx):
     shape.match(ctx, "R12.6", CIRC + ".Circuit.measure:mixed", ret_expr(mb.body) if mb else None, "self.init_and_discard().eval(mixed=True).array.real", {}, mod=CIRC, node=fn, sig="measure-mixed")
     # pure branch: the Born rule computed amplitude by amplitude
     rest = [s for s in fn.body if s is not mb and not isinstance(s, (ast.Import, ast.ImportFrom)) and not (isinstance(s, ast.Expr) and isinstance(s.value, ast.Constant))]
+    # the same computation with the list of effects fused into the loop (one effect built per pass): read as the two-step form
+    lp0 = next((s for s in rest if isinstance(s, ast.For)), None)
+    if lp0 is not None and isinstance(lp0.target, ast.Name) and not any(isinstance(s, ast.Assign) and ast.unparse(s.targets[0]) == "effects" for s in rest) \
+            and lp0.body and isinstance(lp0.body[0], ast.Assign) and isinstance(lp0.body[0].targets[0], ast.Name) and not lp0.orelse:
+        j_, first = lp0.target.id, lp0.body[0]
+        e_ = first.targets[0].id
+        later = [x for s in lp0.body[1:] for x in ast.walk(s) if isinstance(x, ast.Name)]
+        if not any(x.id == j_ for x in later) and not any(x.id == e_ and isinstance(x.ctx, ast.Store) for x in later):
+            comp = ast.parse("effects = [X for %s in Y]" % j_).body[0]
+            comp.value.elt, comp.value.generators[0].iter = first.value, lp0.iter
+            new_lp = ast.For(target=ast.Name(id=e_, ctx=ast.Store()), iter=ast.Name(id="effects", ctx=ast.Load()), body=lp0.body[1:], orelse=[])
+            for x in (comp, new_lp):
+                ast.copy_location(x, lp0)
+                ast.fix_missing_locations(x)
+            k_ = rest.index(lp0)
+            rest = rest[:k_] + [comp, new_lp] + rest[k_ + 1:]
     shape.match_stmts(ctx, "R12.6", CIRC + ".Circuit.measure:pure", [s for s in rest if isinstance(s, ast.Assign)],
                       ["state = (Ket(*len(self.dom) * [0]) >> self).eval()", "effects = [Bra(*index2bitstring(j, len(self.cod))).eval() for j in range(2 ** len(self.cod))]",
                        "array = Tensor.np.zeros(len(self.cod) * (2,) or (1,))"], mod=CIRC, node=fn, sig="measure-pure",
